@@ -19,8 +19,13 @@ def run(ctx: Ctx) -> None:
         "nothing but SyntaxError escape for resolve_packages=False (in particular not lark's VisitError, which wraps "
         "the SyntaxError of a malformed condition part inside a well-formed AHB expression: A-LARK-FOLD) and "
         "additionally only NotImplementedError / the package resolver's own exceptions with resolve_packages=True; "
-        "is_valid_expression turns SyntaxError into (False, message). BOUNDED: the accepted language itself (Earley "
-        "parser configured by a grammar string) against an independent reference recogniser.")
+        "is_valid_expression turns SyntaxError into (False, message). DECIDED FOR ALL STRINGS: every terminal of both "
+        "grammars (as Lark compiled it) denotes the documented token language - regular-language equivalence over the "
+        "full Unicode alphabet with the character sets taken from the re engine itself. BOUNDED: the accepted "
+        "language as a whole (Earley parser configured by a grammar string) against an independent reference recogniser.")
     ctx.trust("A-LARK-PARSE", "A-LARK-FOLD", "accepted language: bounded only (Lark)")
     prove(ctx, TARGETS)
+    # the token languages of both grammars, decided over all of Unicode (a sufficient-condition obligation per terminal)
+    from checks import tokenlang
+    tokenlang.obligations(ctx)
     run_bounded(ctx, "C02")
